@@ -41,7 +41,7 @@ static int run_history(const History& h) {
     std::vector<std::size_t> rel_pos, way_pos(max_id + 1, 0);
     for (std::size_t i = 0; i < h.rels.size(); ++i) {
         std::vector<member_type> ms; for (int m : h.rels[i]) ms.emplace_back(osmium::item_type::way, m, "x");
-        rel_pos.push_back(osmium::builder::add_relation(buffer, _id(100 + int(i)), _members(ms)));
+        rel_pos.push_back(osmium::builder::add_relation(buffer, _id(i % 2 ? -(100 + int(i)) : 100 + int(i)), _members(ms)));   // negative ids (objects not yet uploaded) are valid
     }
     for (int w : h.present) way_pos[w] = osmium::builder::add_way(buffer, _id(w), _nodes({1, 2}));
 
@@ -74,7 +74,7 @@ static int run_history(const History& h) {
         bool bad = false;
         arrived.insert(w);
         const bool added = mdb.add(buffer.get<osmium::Way>(way_pos[w]), [&](osmium::relations::RelationHandle& rh) {
-            const std::size_t i = std::size_t(rh->id() - 100);
+            const std::size_t i = std::size_t((rh->id() < 0 ? -rh->id() : rh->id()) - 100);
             ++completed[i];
             for (const auto& m : rh->members()) { const auto* p = mdb.get(m.ref()); if (!p || p->id() != m.ref()) { std::printf("relation %zu completed but member %ld is not retrievable\n", i, long(m.ref())); bad = true; } }
             for (const auto& m : rh->members()) mdb.remove(m.ref(), rh->id());     // RelationsManager::handle_complete_relation
